@@ -34,6 +34,10 @@ def coll(codes, kind, vals, variant=0):
         return set(x for x in items if not (x is None or (isinstance(x, float) and np.isnan(x)))) | ({missing(variant, 0)} if 0 in codes else set())
     if kind == "series":
         return pd.Series(items, dtype=object, index=[2 * i + 1 for i in range(len(items))])
+    if kind == "categorical":
+        # a categorical column whose declared categories include values that do not occur (a subset of the rows of a larger table)
+        present = [None if c == 0 else vals[c - 1] for c in codes]
+        return pd.Series(pd.Categorical(present, categories=list(vals)), index=[3 * i for i in range(len(items))])
     if kind == "ndarray":
         arr = np.empty(len(items), dtype=object)        # one-dimensional whatever the elements are
         for i, x in enumerate(items):
@@ -71,7 +75,8 @@ def same_coll(x, y):
 def judge_sets(ctx, a, b, res, rp, variant):
     import pyrepseq as prs
     vals = VALS[variant % len(VALS)]
-    for cont in ("list", "set", "series", "ndarray"):
+    homogeneous = len({type(v) for v in vals}) == 1 and not isinstance(vals[0], tuple)
+    for cont in ("list", "set", "series", "ndarray") + (("categorical",) if homogeneous else ()):
         A, B = coll(a, cont, vals, variant), coll(b, cont, vals, variant + 1)
         has_missing = 0 in a or 0 in b
         desc = f"({cont} {a}, {cont} {b}) [0 = missing]"
@@ -79,7 +84,7 @@ def judge_sets(ctx, a, b, res, rp, variant):
         check(ctx, "overlap" + desc, lambda: prs.overlap(A, B), res["overlap"], f"overlap/{cont}", rp)
         check(ctx, "overlap_coefficient" + desc, lambda: prs.overlap_coefficient(A, B), res["coef"], f"overlap_coefficient/{cont}", rp)
         # jaccard_index: missing values are documented to be dropped inside Series only; empty union excluded
-        if not estim.is_nan_rat(res["jaccard"]) and (cont == "series" or not has_missing):
+        if not estim.is_nan_rat(res["jaccard"]) and (cont in ("series", "categorical") or not has_missing):
             check(ctx, "jaccard_index" + desc, lambda: prs.jaccard_index(A, B), res["jaccard"], f"jaccard_index/{cont}", rp)
             # the caller's collections are used again afterwards, the other way round
             check(ctx, "jaccard_index swapped, same objects again " + desc, lambda: prs.jaccard_index(B, A), res["jaccard"], f"jaccard_index/{cont}/reuse", rp)
